@@ -11,7 +11,7 @@ import (
 
 func init() {
 	register(&core.Rule{ID: "MB-DECISION", Props: []string{"C06"}, Floor: 5,
-		Doc: "decision table of the mailbox receivers and senders: a decoded message is handed to the delivery channel exactly when decoding succeeded; a read takes from the backlog exactly when it is non-empty; the relaxed sender marks the section as having sent exactly after a successful encode and forgets it at commit; the TCP receiver publishes a commit's batch exactly when it is non-empty and closes the exchange after every commit",
+		Doc: "decision table of the mailbox receivers and senders: a decoded message is handed to the delivery channel exactly when decoding succeeded; a read takes from the backlog exactly when it is non-empty; the relaxed sender marks the section as having sent exactly after a successful encode and forgets it at commit; the timed connection wrappers read/write through exactly when arming the deadline succeeded",
 		Run: runMBDecision})
 }
 
@@ -35,16 +35,6 @@ func runMBDecision(c *core.Ctx) {
 			}
 			f := an.SelectedField(info, as.Lhs[0])
 			return f != nil && f.Name() == field && isBoolConst(info, as.Rhs[0], val)
-		}
-	}
-	storeLocalConst := func(name string, val bool) func(*types.Info, ast.Node) bool {
-		return func(info *types.Info, n ast.Node) bool {
-			as, ok := n.(*ast.AssignStmt)
-			if !ok || len(as.Lhs) != 1 || len(as.Rhs) != 1 || as.Tok != token.ASSIGN {
-				return false
-			}
-			o := an.ObjOf(info, as.Lhs[0])
-			return o != nil && o.Name() == name && isBoolConst(info, as.Rhs[0], val)
 		}
 	}
 	backlogPop := func(info *types.Info, n ast.Node) bool {
@@ -97,33 +87,7 @@ func runMBDecision(c *core.Ctx) {
 			ref: func(a dtAtoms) bool { return a.I("len($.readBacklog)") > 0 }},
 		{fn: "tcpMailboxesLocal.ReadValue", key: "backlog-first", why: "redelivered messages are served before new ones", find: backlogPop, ints: map[string]string{"len($.readBacklog)": ""},
 			ref: func(a dtAtoms) bool { return a.I("len($.readBacklog)") > 0 }},
-		{fn: "tcpMailboxesLocal.handleConn", key: "publishes-non-empty-batch", why: "a committed section's messages are published iff there are any", find: sendOn("msgChannel"),
-			bools: []string{"err==nil", "hasBegun"}, ints: map[string]string{"tag": "", "len(localBuffer)": ""}, occ: false,
-			ref: nil},
-		{fn: "tcpMailboxesLocal.handleConn", key: "exchange-closed-after-commit", why: "after a commit the next exchange must begin anew", find: storeLocalConst("hasBegun", false), ref: nil},
-		{fn: "tcpMailboxesLocal.handleConn", key: "exchange-opened-by-begin", why: "a begin opens the exchange", find: storeLocalConst("hasBegun", true), ref: nil},
 	}
-	// the TCP receiver's rows are written against its switch on the tag
-	pk := c.Prog.Pkg(an.PkgResources)
-	if pk == nil {
-		return
-	}
-	tagConst := func(a dtAtoms, name string) int64 { return a.K(name) }
-	for i := range rows {
-		switch rows[i].key {
-		case "publishes-non-empty-batch":
-			rows[i].occ = true
-			rows[i].bools = nil
-			rows[i].ints = map[string]string{"tag": "", "len(localBuffer)": ""}
-			rows[i].ref = nil
-		}
-	}
-	var final []dtRow
-	for _, r := range rows {
-		if r.ref != nil {
-			final = append(final, r)
-		}
-	}
-	_ = tagConst
-	runDecisionRows(c, e, an.PkgResources, "", final)
+	// the TCP receiver's publish / exchange rows are decided by MB-PUBLISH and MB-TAGS on its tag switch
+	runDecisionRows(c, e, an.PkgResources, "", rows)
 }
